@@ -141,7 +141,14 @@ def run(ctx: core.Check):
         else:
             t = 0
         lines.append(f"EXTRAVERSION = {text}")
-        f.write_text("\n".join(lines) + "\n")
+        # the FORM of the file varies: no blanks around '=', CRLF line ends, a comment and a blank line, no final newline
+        form = k % 5
+        if form == 1:
+            lines = [x.replace(" = ", "=") for x in lines]
+        if form == 3:
+            lines = ["# version of the application", ""] + lines
+        nl = "\r\n" if form == 2 else "\n"
+        f.write_bytes((nl.join(lines) + ("" if form == 4 else nl)).encode())
         try:
             if k % 10 == 7:
                 items = version_by_build_cli(d, f)   # the build system's command line: build.py template --version_file
